@@ -1,6 +1,7 @@
 import Goyang.Model.Ctx
 import Goyang.Spec.Registry
 import Goyang.Lemmas.StrOrd
+import Goyang.Lemmas.Date
 /-
 Lemmas for C13 (a): the registry `Registry.add` folded over a list of loads binds every key to
 the header the specification names (`denotesS`, the specification read with Go's string order;
@@ -934,5 +935,233 @@ theorem loadAll_spec (ss : List Stmt) (hss : ∀ t ∈ ss, NoAt t.arg) :
     (Registry.loadAll ss).2.map Option.isSome = outcomes (ss.map hdr) := by
   have := loadFrom_spec ss inv_empty (by simp) hss
   simpa [Registry.loadAll, outcomes] using this
+
+/-! ### what `denotesS` returns, by membership only -/
+
+theorem sLe_antisymm {a b : String} (h1 : sLe a b = true) (h2 : sLe b a = true) : a = b := by
+  simp only [sLe, Bool.not_eq_true'] at h1 h2
+  rcases strLt_total a b with h | h | h
+  · simp [h] at h2
+  · exact h
+  · simp [h] at h1
+
+/-- `x` is what `key` denotes among `hs`, said without reference to the order of `hs`. -/
+def Den (hs : List Header) (sub : Bool) (key : String) (x : Header) : Prop :=
+  x ∈ hs ∧ x.isSub = sub ∧
+  ((x.rev ≠ "" ∧ x.name ++ "@" ++ x.rev = key) ∨
+   ((∀ g ∈ hs, g.isSub = sub → ¬ (g.rev ≠ "" ∧ g.name ++ "@" ++ g.rev = key)) ∧ x.name = key ∧
+     ∀ g ∈ hs, g.isSub = sub → g.name = key → sLe g.rev x.rev = true))
+
+theorem den_of_denotesS {hs : List Header} {sub : Bool} {key : String} {x : Header}
+    (h : denotesS hs sub key = some x) : Den hs sub key x := by
+  rw [denotesS_def] at h
+  cases hf : (hs.filter (·.isSub == sub)).find? (exactP key) with
+  | some o =>
+    simp only [hf, Option.some_or, Option.some.injEq] at h
+    subst h
+    have h1 := List.mem_of_find?_eq_some hf
+    have h2 := List.find?_some hf
+    simp only [List.mem_filter, beq_iff_eq] at h1
+    simp only [exactP, decide_eq_true_eq] at h2
+    exact ⟨h1.1, h1.2, .inl h2⟩
+  | none =>
+    simp only [hf, Option.none_or] at h
+    obtain ⟨hm, hmax⟩ := latestS_some h
+    simp only [List.mem_filter, beq_iff_eq, decide_eq_true_eq] at hm
+    refine ⟨hm.1.1, hm.1.2, .inr ⟨?_, hm.2, ?_⟩⟩
+    · intro g hg hgs
+      rw [List.find?_eq_none] at hf
+      have := hf g (by simp [hg, hgs])
+      simpa [exactP] using this
+    · intro g hg hgs hgn
+      exact hmax g (by simp [hg, hgs, hgn])
+
+theorem denotesS_ne_none_of_den {hs : List Header} {sub : Bool} {key : String} {x : Header}
+    (h : Den hs sub key x) : denotesS hs sub key ≠ none := by
+  obtain ⟨hm, hs', h3⟩ := h
+  rw [denotesS_def]
+  intro hnone
+  rw [Option.or_eq_none_iff] at hnone
+  obtain ⟨hf, hl⟩ := hnone
+  rcases h3 with h3 | ⟨_, hn, _⟩
+  · rw [List.find?_eq_none] at hf
+    have := hf x (by simp [hm, hs'])
+    simp [exactP, h3] at this
+  · rw [latestS_eq_none] at hl
+    have : x ∈ (hs.filter (·.isSub == sub)).filter (·.name = key) := by simp [hm, hs', hn]
+    rw [hl] at this; simp at this
+
+theorem den_unique {hs : List Header} {sub : Bool} {key : String} {x y : Header}
+    (hn : ∀ g ∈ hs, NoAt g.name) (hx : Den hs sub key x) (hy : Den hs sub key y) : x = y := by
+  obtain ⟨xm, xs, x3⟩ := hx
+  obtain ⟨ym, ys, y3⟩ := hy
+  have ext : x.isSub = y.isSub → x.name = y.name → x.rev = y.rev → x = y := by
+    cases x; cases y; simp_all
+  rcases x3 with ⟨xr, xk⟩ | ⟨xno, xn, xmax⟩ <;> rcases y3 with ⟨yr, yk⟩ | ⟨yno, yn, ymax⟩
+  · have := key_inj (hn x xm) (hn y ym) (xk.trans yk.symm)
+    exact ext (xs.trans ys.symm) this.1 this.2
+  · exact absurd ⟨xr, xk⟩ (yno x xm xs)
+  · exact absurd ⟨yr, yk⟩ (xno y ym ys)
+  · exact ext (xs.trans ys.symm) (xn.trans yn.symm)
+      (sLe_antisymm (ymax x xm xs xn) (xmax y ym ys yn))
+
+theorem den_perm {hs hs' : List Header} (hp : hs.Perm hs') (sub : Bool) (key : String) (x : Header) :
+    Den hs sub key x → Den hs' sub key x := by
+  rintro ⟨hm, hs0, h3⟩
+  refine ⟨hp.mem_iff.mp hm, hs0, ?_⟩
+  rcases h3 with h3 | ⟨h1, h2, h4⟩
+  · exact .inl h3
+  · exact .inr ⟨fun g hg => h1 g (hp.mem_iff.mpr hg), h2, fun g hg => h4 g (hp.mem_iff.mpr hg)⟩
+
+/-- What a key denotes does not depend on the order of the headers. -/
+theorem denotesS_perm {hs hs' : List Header} (hp : hs.Perm hs') (hn : ∀ g ∈ hs, NoAt g.name)
+    (sub : Bool) (key : String) : denotesS hs sub key = denotesS hs' sub key := by
+  have hn' : ∀ g ∈ hs', NoAt g.name := fun g hg => hn g (hp.mem_iff.mpr hg)
+  cases h1 : denotesS hs sub key with
+  | none =>
+    cases h2 : denotesS hs' sub key with
+    | none => rfl
+    | some y =>
+      exact absurd h1 (denotesS_ne_none_of_den (den_perm hp.symm sub key y (den_of_denotesS h2)))
+  | some x =>
+    have dx := den_perm hp sub key x (den_of_denotesS h1)
+    cases h2 : denotesS hs' sub key with
+    | none => exact absurd h2 (denotesS_ne_none_of_den dx)
+    | some y => rw [den_unique hn' dx (den_of_denotesS h2)]
+
+/-! ### rejected loads -/
+
+/-- The headers of the rejected loads, given the headers loaded before. -/
+def rejAfter (before : List Header) : List Header → List Header
+  | [] => []
+  | h :: rest => (if before.contains h then [h] else []) ++ rejAfter (before ++ [h]) rest
+
+theorem rejAfter_eq (before hs : List Header) :
+    ((hs.zip (outcomesAfter before hs)).filter (·.2)).map (·.1) = rejAfter before hs := by
+  induction hs generalizing before with
+  | nil => rfl
+  | cons h rest ih =>
+    simp only [outcomesAfter, List.zip_cons_cons, List.filter_cons, rejAfter]
+    by_cases hb : h ∈ before <;> simp [hb, ih]
+
+theorem count_rejAfter (h : Header) (before hs : List Header) :
+    (rejAfter before hs).count h = if h ∈ before then hs.count h else hs.count h - 1 := by
+  induction hs generalizing before with
+  | nil => simp [rejAfter]
+  | cons g rest ih =>
+    simp only [rejAfter, List.count_append, ih, List.mem_append, List.mem_singleton, List.count_cons]
+    by_cases hgb : g ∈ before
+    · have : before.contains g = true := by simpa using hgb
+      simp only [this, if_true]
+      by_cases hgh : g = h
+      · subst hgh; simp [hgb] <;> omega
+      · have hne : ¬ h = g := fun e => hgh e.symm
+        have : (g == h) = false := by simpa using hgh
+        simp [hne, this, hgh]
+    · have : before.contains g = false := by simpa using hgb
+      simp only [this, Bool.false_eq_true, if_false, List.count_nil, Nat.zero_add]
+      by_cases hgh : g = h
+      · subst hgh; simp [hgb]
+      · have hne : ¬ h = g := fun e => hgh e.symm
+        have : (g == h) = false := by simpa using hgh
+        simp [hne, this] <;> omega
+
+theorem rejAfter_perm {hs hs' : List Header} (hp : hs.Perm hs') : (rejAfter [] hs).Perm (rejAfter [] hs') := by
+  rw [List.perm_iff_count]
+  intro h
+  rw [count_rejAfter, count_rejAfter, hp.count_eq]
+
+/-- The outcome of load `j`: rejected exactly when an equal header is among the earlier loads. -/
+theorem outcomesAfter_getElem? (before hs : List Header) (j : Nat) :
+    (outcomesAfter before hs)[j]? = hs[j]?.map fun h => (before ++ hs.take j).contains h := by
+  induction hs generalizing before j with
+  | nil => simp [outcomesAfter]
+  | cons g rest ih =>
+    cases j with
+    | zero => simp [outcomesAfter]
+    | succ j => simp [outcomesAfter, ih]
+
+/-- `findModule` in terms of `lk`. -/
+theorem findModule_eq (r : Registry) (inc : Bool) (i : Stmt) :
+    r.findModule inc i =
+      match lk r inc (match i.argOf? "revision-date" with | some d => i.arg ++ "@" ++ d | none => i.arg) with
+      | some m => some m
+      | none => lk r inc i.arg := by
+  cases inc <;> rfl
+
+theorem lk_mem {r : Registry} {sub : Bool} {key : String} {m : Mod} (h : lk r sub key = some m) : m ∈ r.mods := by
+  unfold lk at h
+  cases hg : (r.kmOf sub).get? key with
+  | none => rw [hg] at h; simp at h
+  | some id =>
+    rw [hg] at h
+    exact List.mem_of_find?_eq_some (by simpa [Registry.byId] using h)
+
+theorem inj_of_nodup_map {α β : Type} (f : α → β) : ∀ {l : List α}, (l.map f).Nodup →
+    ∀ s ∈ l, ∀ t ∈ l, f s = f t → s = t
+  | [], _, _, hs, _, _, _ => by simp at hs
+  | a :: l, hnd, s, hs, t, ht, he => by
+    rw [List.map_cons, List.nodup_cons] at hnd
+    rcases List.mem_cons.mp hs with hs' | hs' <;> rcases List.mem_cons.mp ht with ht' | ht'
+    · rw [hs', ht']
+    · subst hs'; exact absurd (he ▸ List.mem_map_of_mem ht') hnd.1
+    · subst ht'; exact absurd (he ▸ List.mem_map_of_mem hs') hnd.1
+    · exact inj_of_nodup_map f hnd.2 s hs' t ht' he
+
+/-! ### string order = date order for well-formed revisions -/
+
+theorem find?_congr_mem {α : Type} {p q : α → Bool} : ∀ {l : List α}, (∀ a ∈ l, p a = q a) → l.find? p = l.find? q
+  | [], _ => rfl
+  | a :: l, h => by
+    have ha := h a (by simp)
+    have := find?_congr_mem (l := l) (fun b hb => h b (by simp [hb]))
+    simp [List.find?_cons, ha, this]
+
+theorem all_congr_mem {α : Type} {p q : α → Bool} : ∀ {l : List α}, (∀ a ∈ l, p a = q a) → l.all p = l.all q
+  | [], _ => rfl
+  | a :: l, h => by
+    have ha := h a (by simp)
+    have := all_congr_mem (l := l) (fun b hb => h b (by simp [hb]))
+    simp [ha, this]
+
+theorem toList_ne_nil_of_parse {s : String} (h : (Spec.parseDate s.toList).isSome = true) : s ≠ "" := by
+  intro e; subst e; simp [Spec.parseDate] at h
+
+theorem sLe_eq_revLe {a b : String} (ha : WellFormedRev a) (hb : WellFormedRev b) : sLe a b = revLe a b := by
+  unfold revLe
+  rcases ha with rfl | ha
+  · simp [sLe, strLt_empty_right]
+  · have hane := toList_ne_nil_of_parse ha
+    have hbeq : (a == "") = false := by simpa using hane
+    rw [hbeq, Bool.false_or]
+    obtain ⟨x, hx⟩ := Option.isSome_iff_exists.mp ha
+    rcases hb with rfl | hb
+    · have : Spec.parseDate ("" : String).toList = none := by simp [Spec.parseDate]
+      rw [hx, this]
+      simp [sLe, (strLt_empty_left a).mpr hane]
+    · obtain ⟨y, hy⟩ := Option.isSome_iff_exists.mp hb
+      rw [hx, hy]
+      simp only [sLe, strLt, Spec.Date.le]
+      rw [Goyang.Lemmas.Date.charsLt_date hy hx]
+
+theorem latestS_eq_latest {c : List Header} (hw : ∀ h ∈ c, WellFormedRev h.rev) : latestS c = latest c := by
+  unfold latestS latest
+  apply find?_congr_mem
+  intro h hh
+  apply all_congr_mem
+  intro g hg
+  exact sLe_eq_revLe (hw g hg) (hw h hh)
+
+theorem denotesS_eq_denotes {hs : List Header} (hw : ∀ h ∈ hs, WellFormedRev h.rev) (sub : Bool) (key : String) :
+    denotesS hs sub key = denotes hs sub key := by
+  have : latestS ((hs.filter (·.isSub == sub)).filter (·.name = key)) =
+      latest ((hs.filter (·.isSub == sub)).filter (·.name = key)) := by
+    apply latestS_eq_latest
+    intro h hh
+    simp only [List.mem_filter] at hh
+    exact hw h hh.1.1
+  unfold denotesS denotes
+  simp only [this]
+  rfl
 
 end Goyang.Lemmas.Registry
